@@ -30,12 +30,13 @@ PROPS = {
         "technique": "contract-based deductive verification (Verus) of the real verify_batch / consistency check / verify, extracted mechanically on every run; unbounded in the batch size",
         "claim": "For every batch size k (no bound; chunking specified by chunk_k) verify_batch refuses empty or length-mismatched inputs, runs the whole-batch "
                  "consistency check, hands every chunk of statements, proofs and transcripts to verify, and on success returns exactly k results whose i-th entry is "
-                 "the mask specification of the i-th triple; the consistency check returns Ok only if all members share bit length, extension degree and "
-                 "d1 length and it selects the largest member. The probabilistic 'only if' direction (an accepted batch implies each member's equation) is not a "
+                 "the mask specification of the i-th triple; the consistency check returns Ok only if all members share bit length, extension degree, "
+                 "d1 length, the Pedersen generators (h_base and the g_base vector, by slice equality) and agree with the largest member on every vector generator both contain "
+                 "(party-major prefix of G_i and H_i), and it selects the largest member. The probabilistic 'only if' direction (an accepted batch implies each member's equation) is not a "
                  "deductive fact and is not claimed.",
         "assumptions": [
             "slice::chunks / chunks_mut are specified by chunk_k(s, n, k) = s[min(kn,len) .. min((k+1)n,len)] (shim)",
-            "equality of the Pedersen generator vectors across members is checked by the code with slice equality, whose result is not specified here; agreement of gi/hi generator prefixes (Iterator::any with a closure) is not covered",
+            "Iterator::any is modelled as: a true result means the closure accepted some item, a false result means it was called on every item and answered false (its documented short-circuit semantics); Iterator::flatten over &Option<T> yields the payloads of the Some items",
             "soundness direction (accepted batch => every member's equation holds) is probabilistic over the weights (Schwartz-Zippel) and outside deductive reach",
         ],
     },
@@ -266,8 +267,8 @@ PROPS = {
                  "(lemma_capacity_independent), and the table of capacity c restricted to its first 2*n*m entries is the same interleaving; compute_generator_padding returns "
                  "2*n*c - 2*n*m exactly when it fits; the prover's and the verifier's precomputed multiscalar calls meet the dalek 'static scalars == table size' precondition for "
                  "every capacity >= m and every batch mixture (the verifier uses the largest member's table); a proof with n*m below the batch maximum leaves the tail of the shared "
-                 "G/H scalar vectors untouched and the padding scalars are zero. Not covered: agreement of gi/hi prefixes across batch members is checked by the code with "
-                 "Iterator::any over a closure, whose result is not specified here.",
-        "assumptions": ["same as C11 for the chain model", "prefix comparison of generator vectors in the consistency check (Iterator::any) is not under contract"],
+                 "G/H scalar vectors untouched and the padding scalars are zero. The consistency check is proved to return Ok only if every member agrees with the largest one on the "
+                 "common party-major prefix of both generator vectors.",
+        "assumptions": ["same as C11 for the chain model", "Iterator::any / zip are modelled by their documented sequence semantics"],
     },
 }
